@@ -3,5 +3,6 @@ import DriverLib.Tensors
 import DriverLib.Ops
 import DriverLib.ShapeOps
 import DriverLib.IndexOps
+import DriverLib.ReduceOps
 import DriverLib.Dispatch
 import DriverLib.Graph
